@@ -12,7 +12,8 @@
     the correspondence run passes every generated transaction through it. *)
 From Coq Require Import Ascii String.
 From Coq Require Import NArith ZArith List.
-From HV Require Import Base.Bytes Base.Rlp Base.RlpProofs TxCodec.EthTxModel TxCodec.EthTxProofs.
+From HV Require Import Base.Bytes Base.Rlp Base.RlpProofs TxCodec.EthTxModel TxCodec.EthTxProofs TxCodec.UnwrapProofs.
+Import ListNotations.
 Local Open Scope Z_scope.
 
 (** Shared infrastructure: RLP, as go-ethereum writes it, is injective on items
@@ -110,3 +111,118 @@ Theorem C18_nonvacuous :
   (exists d, to_txdata no_csum ex_access = Wrapped d /\ of_txdata d = Some ex_access).
 Proof. exact (conj ex_shapes ex_wrapped). Qed.
 Print Assumptions C18_nonvacuous.
+
+(** * Unwrapping by hash ([UnwrapEthereumMsg])
+
+    Reading guide.  [emsg] is a decoded [MsgEthereumTx]: TxData, the recorded
+    [Hash] text and the [From] text, the last two arbitrary (decoding validates
+    neither).  [unwrap hash msgs h] is [UnwrapEthereumMsg] on an envelope of the
+    messages [msgs] asked for the hash [h]; [as_tx m] is [m.AsTransaction()];
+    [has_hash hash m h]: the Ethereum transaction inside [m] hashes to [h];
+    [same_tx m m0]: same TxData and same [From].  [hash] (Keccak-256) is
+    arbitrary: the theorems hold for every function. *)
+
+(** A successful unwrap returns a message whose Ethereum hash is the REQUESTED
+    one, whose recorded hash is that hash, and which is the first member of the
+    envelope with that hash — for all envelopes and all requests. *)
+Theorem C18_unwrap_sound :
+  forall (hash : list N -> list N) (msgs : list emsg) (h : list N) (m : emsg),
+    unwrap hash msgs h = Some m ->
+    has_hash hash m h /\
+    m_hash m = hash_hex h /\
+    exists i m0, nth_error msgs i = Some m0 /\ same_tx m m0 /\
+                 forall j mj, (j < i)%nat -> nth_error msgs j = Some mj -> ~ has_hash hash mj h.
+Proof. exact unwrap_sound. Qed.
+Print Assumptions C18_unwrap_sound.
+
+(** It refuses exactly the hashes that no member of the envelope has: it never
+    answers a request with a different transaction. *)
+Theorem C18_unwrap_refuses_iff_absent :
+  forall (hash : list N -> list N) (msgs : list emsg) (h : list N),
+    unwrap hash msgs h = None <-> forall m, In m msgs -> ~ has_hash hash m h.
+Proof. exact unwrap_none_iff. Qed.
+Print Assumptions C18_unwrap_refuses_iff_absent.
+
+(** The answer (transaction and recorded hash) does not depend on what was
+    written into the recorded [Hash] and [From] fields of the envelope. *)
+Theorem C18_unwrap_ignores_forged_fields :
+  forall (hash : list N -> list N) (msgs msgs' : list emsg) (h : list N),
+    map m_data msgs = map m_data msgs' ->
+    option_map m_data (unwrap hash msgs h) = option_map m_data (unwrap hash msgs' h) /\
+    option_map m_hash (unwrap hash msgs h) = option_map m_hash (unwrap hash msgs' h).
+Proof. exact unwrap_forge_independent. Qed.
+Print Assumptions C18_unwrap_ignores_forged_fields.
+
+(** End to end: wrap a transaction A, put the message anywhere into any envelope
+    (recorded hashes and From texts of all members arbitrary), ask for the hash
+    of A: the answer has A's hash, a recorded hash equal to it, and — unless
+    another member of the envelope collides with A under [hash] — unwraps to A
+    itself: identical fields, hence the same sender under every recovery function. *)
+Theorem C18_unwrap_wrapped_member :
+  forall (hash : list N -> list N) (csum : list N -> nat -> bool) (tx : eth_tx) (d : tx_data)
+         (msgs : list emsg) (m0 : emsg),
+    shape_ok tx -> to_txdata csum tx = Wrapped d ->
+    In m0 msgs -> m_data m0 = d ->
+    exists m, unwrap hash msgs (tx_hash hash tx) = Some m /\
+              has_hash hash m (tx_hash hash tx) /\
+              m_hash m = hash_hex (tx_hash hash tx) /\
+              ((forall m' tx', In m' msgs -> as_tx m' = Some tx' -> tx_hash hash tx' = tx_hash hash tx -> tx' = tx) ->
+               as_tx m = Some tx).
+Proof. exact unwrap_wrapped_member. Qed.
+Print Assumptions C18_unwrap_wrapped_member.
+
+(** The instrumented scan the correspondence run evaluates is [unwrap], and the
+    position it reports is the position of the message returned. *)
+Theorem C18_unwrap_scan_is_unwrap :
+  forall (hash : list N -> list N) (msgs : list emsg) (i : nat) (h : list N),
+    option_map snd (snd (unwrap_scan hash i msgs h)) = unwrap hash msgs h /\
+    (forall k m, snd (unwrap_scan hash i msgs h) = Some (k, m) ->
+                 (i <= k)%nat /\ exists m0, nth_error msgs (k - i) = Some m0 /\ same_tx m m0) /\
+    map m_data (fst (unwrap_scan hash i msgs h)) = map m_data msgs /\
+    map m_from (fst (unwrap_scan hash i msgs h)) = map m_from msgs.
+Proof.
+  exact (fun hash msgs i h =>
+           conj (unwrap_scan_unwrap hash msgs i h)
+                (conj (unwrap_scan_position hash msgs i h) (unwrap_scan_after hash msgs i h))).
+Qed.
+Print Assumptions C18_unwrap_scan_is_unwrap.
+
+(** A fast path for one-message envelopes (return the message without hashing)
+    is NOT equivalent: asked for a hash the envelope does not contain it hands out
+    a transaction with another hash where the scan refuses, and with a forged
+    recorded hash it hands the message out with a recorded hash that is not its
+    Ethereum hash.  (On envelopes of any other length the two agree:
+    [unwrap_fast_agrees_elsewhere].) *)
+Theorem C18_unwrap_fast_path_refuted :
+  (unwrap id_hash [ex_msg ex_legacy] (tx_hash id_hash ex_access) = None /\
+   exists m, unwrap_fast id_hash [ex_msg ex_legacy] (tx_hash id_hash ex_access) = Some m /\
+             as_tx m = Some ex_legacy /\ tx_hash id_hash ex_legacy <> tx_hash id_hash ex_access) /\
+  (exists m, unwrap id_hash [ex_forged ex_legacy "0xdead"] (tx_hash id_hash ex_legacy) = Some m /\
+             m_hash m = hash_hex (tx_hash id_hash ex_legacy)) /\
+  (exists m, unwrap_fast id_hash [ex_forged ex_legacy "0xdead"] (tx_hash id_hash ex_legacy) = Some m /\
+             as_tx m = Some ex_legacy /\ m_hash m <> hash_hex (tx_hash id_hash ex_legacy)).
+Proof. exact unwrap_fast_refuted. Qed.
+Print Assumptions C18_unwrap_fast_path_refuted.
+
+(** Non-vacuity: a three-message envelope with two forged recorded hashes
+    answers each member's hash with that member and refuses the empty hash; a
+    two-message envelope refuses the hash of a transaction it does not contain. *)
+Theorem C18_unwrap_nonvacuous :
+  let env := [ex_forged ex_access "0xdead"; ex_forged ex_legacy (m_hash (ex_msg ex_access)); ex_msg ex_dynamic] in
+  (exists m, unwrap id_hash env (tx_hash id_hash ex_legacy) = Some m /\ as_tx m = Some ex_legacy /\
+             m_hash m = hash_hex (tx_hash id_hash ex_legacy)) /\
+  (exists m, unwrap id_hash env (tx_hash id_hash ex_access) = Some m /\ as_tx m = Some ex_access) /\
+  (exists m, unwrap id_hash env (tx_hash id_hash ex_dynamic) = Some m /\ as_tx m = Some ex_dynamic) /\
+  unwrap id_hash env [] = None /\
+  unwrap id_hash [ex_msg ex_access; ex_msg ex_dynamic] (tx_hash id_hash ex_legacy) = None /\
+  snd (unwrap_scan id_hash 0 env (tx_hash id_hash ex_legacy)) = option_map (fun m => (1%nat, m)) (unwrap id_hash env (tx_hash id_hash ex_legacy)).
+Proof. exact ex_unwrap_envelope. Qed.
+Print Assumptions C18_unwrap_nonvacuous.
+
+(** The correspondence run evaluates a memoised form of the model's check (the
+    Ethereum hash of a pool member is computed once per case): it is the plain
+    check, built on [unwrap_scan], on every input. *)
+Theorem C18_unwrap_check_memo_is_check :
+  forall c : unwrap_case, check_unwrap_case_memo c = check_unwrap_case c.
+Proof. exact check_unwrap_case_memo_eq. Qed.
+Print Assumptions C18_unwrap_check_memo_is_check.
